@@ -93,6 +93,9 @@ type gen struct {
 	seq  int
 	c08  bool // populate the three fields the OTLP/JSON decoder of the pinned tree is known (C08) to lose
 	spec bool // special floats
+	// multi: 3-5 resources, every one with at least one scope and one item, so that every prefix of the request that
+	// ends between two top-level entries is itself a complete request with items
+	multi bool
 }
 
 func (g *gen) uid() string { g.seq++; return fmt.Sprintf("%s.%d", g.id, g.seq) }
@@ -249,6 +252,11 @@ func (g *gen) shape(big bool) (nRes int, scopes func() int, items func() int) {
 		scopes = func() int { return 1 }
 		items = func() int { return 300 + g.rng.Intn(1500) }
 	}
+	if g.multi {
+		nRes = 3 + g.rng.Intn(3)
+		scopes = func() int { return 1 + g.rng.Intn(2) }
+		items = func() int { return 1 + g.rng.Intn(3) }
+	}
 	return
 }
 
@@ -367,11 +375,20 @@ func (g *gen) metrics(big bool) (pmetric.Metrics, int) {
 				g.metric(sm.Metrics().AppendEmpty(), g.rng.Intn(6))
 			}
 		}
+		for g.multi && resourceDataPoints(rm) == 0 {
+			g.metric(rm.ScopeMetrics().At(0).Metrics().AppendEmpty(), 1+g.rng.Intn(4))
+		}
 	}
 	for md.DataPointCount() == 0 {
 		g.metric(md.ResourceMetrics().At(0).ScopeMetrics().AppendEmpty().Metrics().AppendEmpty(), 1+g.rng.Intn(4))
 	}
 	return md, md.DataPointCount()
+}
+
+func resourceDataPoints(rm pmetric.ResourceMetrics) int {
+	tmp := pmetric.NewMetrics()
+	rm.CopyTo(tmp.ResourceMetrics().AppendEmpty())
+	return tmp.DataPointCount()
 }
 
 func (g *gen) exemplars(es pmetric.ExemplarSlice) {
@@ -509,7 +526,11 @@ func (g *gen) profiles(big bool) (pprofile.Profiles, int) {
 				ni = ni / 10
 			}
 			for i := 0; i < ni; i++ {
-				g.profile(sp.Profiles().AppendEmpty(), g.rng.Intn(5))
+				ns := g.rng.Intn(5)
+				if g.multi && ns == 0 {
+					ns = 1
+				}
+				g.profile(sp.Profiles().AppendEmpty(), ns)
 			}
 		}
 	}
@@ -619,7 +640,7 @@ func stampRes(attrs pcommon.Map, id string) { attrs.PutStr(idKey, id) }
 // newPayload builds the payload of one case. flavours: own | own-c08 | own-floats | testdata | big
 func newPayload(rng *rand.Rand, signal, id, flavour string) *payload {
 	p := &payload{Signal: signal, ID: id, Flavour: flavour}
-	g := &gen{rng: rng, id: id, c08: flavour == "own-c08", spec: flavour == "own-floats"}
+	g := &gen{rng: rng, id: id, c08: flavour == "own-c08", spec: flavour == "own-floats", multi: flavour == "multi"}
 	big := flavour == "big"
 	switch signal {
 	case "logs":
